@@ -9,7 +9,7 @@ RTYPE = '$rtype'
 
 KIND = {'bool': 1, 'int': 2, 'int8': 3, 'int16': 4, 'int32': 5, 'int64': 6, 'uint': 7, 'uint8': 8, 'byte': 8,
         'uint16': 9, 'uint32': 10, 'rune': 5,
-        'uint64': 11, 'uintptr': 12, 'float32': 13, 'float64': 14, 'string': 24, 'unsafe.Pointer': 26}
+        'uint64': 11, 'uintptr': 12, 'float32': 13, 'float64': 14, 'complex64': 15, 'complex128': 16, 'string': 24, 'unsafe.Pointer': 26}
 KKIND = {'array': 17, 'chan': 18, 'func': 19, 'iface': 20, 'map': 21, 'ptr': 22, 'slice': 23, 'struct': 25}
 
 
@@ -879,6 +879,24 @@ def register(E):
         return E.timer_log[E.conc_int(args[0], 64, True)]
     I['@verifTimerDuration'] = v_timerlog_get
     I['@verifPatchTimers'] = lambda E, a: (lambda E2, a2: None)
+
+    def v_setdialer(E, args):
+        E.dial_hook = args[0]
+    I['@verifSetDialer'] = v_setdialer
+
+    def dial_context(E, args):
+        if getattr(E, 'dial_hook', None) is None:
+            raise Unsupported('net dial without a harness dialer')
+        return E.call_value(E.dial_hook, [])
+    I['(*net.Dialer).DialContext'] = dial_context
+
+    def split_host_port(E, args):
+        s = args[0]
+        if type(s) is bytes and b':' in s:
+            h, _, p = s.rpartition(b':')
+            return (h, p, None)
+        return (b'', b'', Iface(OPQ, OpaqueErr('splithostport')))
+    I['net.SplitHostPort'] = split_host_port
 
     def v_chanpush(E, args):
         """verifChanPush(ch, item): place an item in a channel regardless of its capacity (a sender is waiting)"""
